@@ -219,6 +219,10 @@ pub struct Program {
     pub b: Vec<Op>,
     /// How many times the executor thread tries to run a scheduled task.
     pub exec: usize,
+    /// A second executor thread takes scheduled tasks from the same slot (thread B's
+    /// program must be empty): successive polls may then happen on different threads,
+    /// ordered only by the task's own state word.
+    pub exec2: bool,
 }
 
 struct Hands {
@@ -305,7 +309,7 @@ fn run_program(p: &Program) {
     let mut ha = Hands { waker: wa, token, promise: None, cancel_tick: 0, last_wake: 0, got_output: false };
     let mut hb = Hands { waker: wb, token: None, promise, cancel_tick: 0, last_wake: 0, got_output: false };
     let exec_n = p.exec;
-    let he = thread::spawn(move || {
+    let exec_loop = move || {
         let mut misses = 0;
         let mut runs = 0;
         while runs < exec_n && misses < 2 {
@@ -317,7 +321,14 @@ fn run_program(p: &Program) {
                 thread::yield_now();
             }
         }
-    });
+    };
+    let he = thread::spawn(exec_loop);
+    let he2 = if p.exec2 {
+        assert!(p.b.is_empty(), "two-executor programs have no thread B");
+        Some(thread::spawn(exec_loop))
+    } else {
+        None
+    };
     let pa = p.a.clone();
     let ta = thread::spawn(move || {
         for op in pa {
@@ -326,15 +337,28 @@ fn run_program(p: &Program) {
         ha
     });
     let pb = p.b.clone();
-    let tb = thread::spawn(move || {
-        for op in pb {
-            do_op(&mut hb, op);
-        }
-        hb
-    });
+    let (tb, hb_kept) = if p.exec2 {
+        (None, Some(hb))
+    } else {
+        (
+            Some(thread::spawn(move || {
+                for op in pb {
+                    do_op(&mut hb, op);
+                }
+                hb
+            })),
+            None,
+        )
+    };
     he.join().unwrap();
+    if let Some(h) = he2 {
+        h.join().unwrap();
+    }
     let mut ha = ta.join().unwrap();
-    let mut hb = tb.join().unwrap();
+    let mut hb = match tb {
+        Some(t) => t.join().unwrap(),
+        None => hb_kept.unwrap(),
+    };
     // Everything the threads did happened-before this point.
     let cancelled = ha.cancel_tick != 0 || fx.cancelled_in_poll.load(O::SeqCst) != 0;
     let mut guard = 0;
@@ -500,11 +524,15 @@ fn seqs(alpha: &[Op], depth: usize) -> Vec<Vec<Op>> {
 }
 
 fn prog(forget: bool, fut: FutKind, a: &[Op], b: &[Op], exec: usize) -> Program {
-    Program { forget, fut, a: a.to_vec(), b: b.to_vec(), exec }
+    Program { forget, fut, a: a.to_vec(), b: b.to_vec(), exec, exec2: false }
+}
+
+fn prog2(forget: bool, fut: FutKind, a: &[Op], exec: usize) -> Program {
+    Program { forget, fut, a: a.to_vec(), b: vec![], exec, exec2: true }
 }
 
 fn program_item(p: Program, pbq: usize, pbt: usize) -> Item {
-    let name = format!("program/{}{:?}/A{:?}/B{:?}/exec{}", if p.forget { "forget/" } else { "" }, p.fut, p.a, p.b, p.exec);
+    let name = format!("program/{}{:?}/A{:?}/B{:?}/exec{}{}", if p.forget { "forget/" } else { "" }, p.fut, p.a, p.b, p.exec, if p.exec2 { "x2" } else { "" });
     Item::new(name, pbq, pbt, move || run_program(&p))
 }
 
@@ -555,6 +583,10 @@ fn programs(thorough: bool) -> Vec<Item> {
         prog(true, CancelInPollKeepWaker, &[WakeRef, DropWaker], &[DropWaker], 2),
         prog(false, NeverKeepWaker, &[Cancel, DropWaker], &[WakeRef, DropPromise, DropWaker], 2),
         prog(true, NeverKeepWaker, &[WakeRef, Cancel, DropWaker], &[DropWaker], 2),
+        // Two executor threads: successive polls on different threads.
+        prog2(true, Pending(2), &[WakeRef, WakeRef], 1),
+        prog2(true, Never, &[WakeRef, WakeVal], 1),
+        prog2(true, Pending(1), &[WakeRef, DropWaker], 1),
     ];
     for p in core {
         v.push(program_item(p, 2, 3));
@@ -596,6 +628,8 @@ pub fn c05() -> Vec<Item> {
         prog(true, SelfWake3, &[WakeRef], &[WakeRef], 3),
         prog(true, Pending(2), &[CloneWake, WakeRef], &[WakeVal], 3),
         prog(true, Never, &[WakeRef, WakeRef, WakeRef], &[], 2),
+        prog2(true, Pending(2), &[WakeRef, WakeRef], 1),
+        prog2(true, Never, &[WakeRef, WakeRef], 1),
     ] {
         v.push(program_item(p, 2, 3));
     }
